@@ -300,15 +300,36 @@ func (r *AvPacket2RtmpRemuxer) FeedAvPacket(pkt base.AvPacket) {
 				r.hasAdts2Asc = true
 			}
 
-			length := len(pkt.Payload) - 5 // -7+2
-			if length < 7 {
-				return
+			// 一个包里可能有多个adts帧（比如GB28181的一个PES里打包了多帧音频），按adts头中的帧长度逐帧拆开，
+			// 否则后面的adts头会被当成前一帧的裸数据。后续帧的时间戳按每帧1024个采样递增
+			data := pkt.Payload
+			for k := 0; len(data) >= 7; k++ {
+				frameLen := int(data[3]&0x3)<<11 | int(data[4])<<3 | int(data[5])>>5
+				if k == 0 && (frameLen < 7 || frameLen >= len(data)) {
+					// 只有一帧（或者长度字段不可信），保持原有处理方式
+					frameLen = len(data)
+				}
+				if frameLen < 7 || frameLen > len(data) {
+					break
+				}
+				length := frameLen - 5 // -7+2
+				if length >= 7 {
+					ts := pkt.Timestamp
+					if k > 0 {
+						if ctx, err := aac.NewAdtsHeaderContext(data[:7]); err == nil {
+							if sf, err := ctx.AscCtx.GetSamplingFrequency(); err == nil && sf > 0 {
+								ts += int64(k) * 1024 * 1000 / int64(sf)
+							}
+						}
+					}
+					payload := make([]byte, length)
+					payload[0] = 0xAF
+					payload[1] = base.RtmpAacPacketTypeRaw
+					copy(payload[2:], data[7:frameLen])
+					r.emitRtmpAvMsg(true, payload, ts)
+				}
+				data = data[frameLen:]
 			}
-			payload := make([]byte, length)
-			payload[0] = 0xAF
-			payload[1] = base.RtmpAacPacketTypeRaw
-			copy(payload[2:], pkt.Payload[7:])
-			r.emitRtmpAvMsg(true, payload, pkt.Timestamp)
 		}
 
 	case base.AvPacketPtG711A:
